@@ -44,3 +44,35 @@ META["C19"] = dict(
     trusted_base=COMMON_TB,
     assumptions=["graphs are valid; root < number of nodes", "root membership in frontiers compared only when the root has 0 or >=2 incoming edges (the property's proviso)"],
 )
+
+MWU_TB = COMMON_TB + ["normal-approximation p-values are compared against an interval enclosure of Phi computed by MV.I.Phi (series + Mills bounds); its soundness over the reals is stated in MV/Proofs/Interval.lean where proved, otherwise trusted"]
+
+META["C02"] = dict(
+    level_text="Theorems (Lean, all N1,N2,T): the executed count tables (forward generating-function DP over tie groups; Mann-Whitney recurrence table) equal the definitional count over allocation vectors weighted by prod C(t_k,r_k), i.e. the number of size-N1 subsets of the ranked pool with 2U<=2u; consequences: CDF monotone, total mass 1 (Vandermonde), mirror law between (N1,N2,T) and (N2,N1,T). Correspondence: UDist.CDF/PMF of the real code are compared with that exact rational value (rtol 1e-9) on every (N1,N2,T) with N<=8 (thorough 11) over the whole half-integer grid plus off-grid reals, and on random cases up to 50+50 untied and 25+25 tied.",
+    level_note="Trusted: Lean kernel, harness sampling. Go's float rounding (exp-lgamma Choose for n>20, DP in float64) is absorbed by rtol 1e-9/atol 1e-12. PMF is compared at attainable points only, as the property states.",
+    technique="Lean 4 proof that the executed DP equals subset counting + exact rational differential correspondence",
+    rule="ud n1 n2 T cdf|pmf u. Exhaustive: every (N1,N2) with N<=8 (thorough 11), T nil and every composition of N into >=2 parts, u on the half-integer grid -1..N1N2+1 (sampled 1/4 in the interior for N>=10) plus 3 random off-grid reals; random larger cases to 50+50 untied / 25+25 tied with u at the centre, tails, grid and off-grid. non-trivial = tied with >=2 ranks, or untied with N>=6",
+    exhaustive_part="all (N1,N2,T) with N1+N2<=8 (thorough <=9 dense, 10-11 with sampled interior grid)",
+    trusted_base=COMMON_TB,
+    assumptions=["T is nil or a valid tie vector with >=2 ranks summing to N1+N2", "PMF compared only at attainable grid points (mass>0); CDF everywhere"],
+)
+META["C01"] = dict(
+    level_text="Theorems (Lean, all inputs): U computed from mid-ranks equals the pair count #{a>b}+#{a=b}/2; pair count is invariant under permutation and strictly monotone maps; the exact tails are Pr[U'<=U], Pr[U'>=U] over the C02 distribution (half-integer grid argument) and lie in [0,1]. Correspondence: MannWhitneyUTest of the real code is compared with the model (N1,N2,U exactly, P to rtol 1e-9) for every tie vector, every allocation and every alternative with N<=7 (thorough 10) and random cases up to the limits.",
+    level_note="Trusted: as C02. One open known finding (F1c, two-sided exact P on asymmetric tie vectors) is recognised by signature and reported as KNOWN-FINDING; any other deviation is a violation.",
+    technique="Lean 4 proofs (rank formula = pair counting; tails over the proved exact distribution) + exact differential correspondence",
+    rule="mwu x1 x2 alt 50 25. Exhaustive: every composition T of N<=7 (thorough 10) into >=2 ranks, every allocation r<=t with 0<n1<N, all three alternatives; values are distinct per rank, pushed through a random monotone map and shuffled. Random: sizes to 50+50 untied / 25+25 tied, biased to two distinct values, one big group, extreme U. non-trivial = tied, or both samples >=3 values",
+    exhaustive_part="every (T, allocation, alternative) with N1+N2<=7 (thorough 10)",
+    trusted_base=COMMON_TB,
+    assumptions=["finite inputs; exact-method limits at their defaults (50, 25)"],
+)
+META["C03"] = dict(
+    level_text="Theorems (Lean): swap law U(x2,x1)=N1N2-U(x1,x2); error characterisation (one tie group iff all pooled values equal; variance zero iff all equal); the decision logic of the model (method selection by the two limits, continuity corrections) is the property's formula. Correspondence: the real code is run at several settings of the two limit variables on samples up to 400 values and compared with the model: N1,N2,U,error kind and argument slices exactly, exact P to 1e-9, approximate P against a certified-style interval enclosure of the normal tail at the model's exact z.",
+    level_note="Trusted: as C01, plus the Phi enclosure (MV.I.Phi) used as reference for the approximate branch. Laws (reorder, monotone map, swap) are theorems of the model; the generator emits swapped/reordered/mapped variants so the code is compared on them.",
+    technique="Lean 4 proofs of the laws on the model + differential correspondence at several limit configurations",
+    rule="mwu x1 x2 alt exactLimit tiesLimit with limits in {(50,25),(0,0),(3,3),(1e6,1e6),(10,40)}; sizes straddle 25/50 (+-3), small, and up to 400+400; tie levels none/coarse grid/heavy/all-equal; empties; swapped, reordered, monotone-mapped and other-method variants of the same data. non-trivial = tied, or both samples >=3",
+    exhaustive_part="",
+    trusted_base=MWU_TB,
+    assumptions=["finite inputs", "P range checked with 1e-12 slack (P = 1+2e-16 from float rounding of count/C(N,n1) is not treated as a violation)"],
+)
+for k, t in [("C01", "U = pair count, exact P = permutation tail"), ("C02", ""), ("C03", "")]:
+    pass
